@@ -29,6 +29,9 @@ pub struct Case {
     /// one flipped bit of the stored container (index modulo its size in bits)
     pub flip_bit: Option<u64>,
     pub hash_seed: u64,
+    /// the file route goes through load_file_bytes (+ decode) instead of load_file
+    #[serde(default)]
+    pub via_bytes: bool,
 }
 
 pub const FILE: &str = "in.mps.gz";
@@ -181,7 +184,7 @@ impl C17 {
         let layout = gen_layout(rng);
         let entry = *rng.pick(&[Entry::RawReader, Entry::ZippedReader, Entry::File]);
         let gz = if entry == Entry::RawReader { Gz::Plain } else { gen_gz(rng) };
-        Case { model, layout, gz, corrupt: None, entry, faults: vec![], chunk_r: Chunk::Whole, flip_bit: None, hash_seed: rng.next() }
+        Case { model, layout, gz, corrupt: None, entry, faults: vec![], chunk_r: Chunk::Whole, flip_bit: None, hash_seed: rng.next(), via_bytes: false }
     }
 }
 
@@ -198,6 +201,7 @@ impl Prop for C17 {
     }
     fn gen(&self, rng: &mut Rng, _tier: Tier, _idx: u64) -> Case {
         let mut c = self.base_case(rng);
+        c.via_bytes = c.entry == Entry::File && rng.chance(1, 4);
         // now and then a file that outgrows the readers' buffers (BufReader 8 KiB, flate2 32 KiB)
         if rng.chance(1, 40) {
             c.layout.padding_kb = *rng.pick(&[9u8, 17, 40, 70]);
@@ -320,6 +324,8 @@ impl Prop for C17 {
         let r = match case.entry {
             Entry::RawReader => x.sut(|| ommx::mps::load_raw_reader(SimReader::new(bytes.clone(), STREAM))),
             Entry::ZippedReader => x.sut(|| ommx::mps::load_zipped_reader(SimReader::new(bytes.clone(), STREAM))),
+            // load_file_bytes is load_file followed by the encoding of the message: decoded again it must be the same
+            Entry::File if case.via_bytes => x.sut(|| ommx::mps::load_file_bytes(&path).map(|b| <ommx::v1::Instance as prost::Message>::decode(&b[..]).expect("load_file_bytes returned bytes that are not an ommx.v1.Instance"))),
             Entry::File => x.sut(|| ommx::mps::load_file(&path)),
         };
         let api = match case.entry {
@@ -488,7 +494,7 @@ impl Prop for C17 {
     }
 
     fn rule(&self) -> String {
-        "one run = (abstract LP/MIP model with <=6 columns and <=5 rows: E/L/G rows, RHS, RANGES of either sign, integer markers, every BOUNDS type, objective constant, sense absent/inline/own line; layout variant: 3/5-field lines, comments, blank lines, blanks/tabs, number styles, CRLF, section variants; container: plain, flate2 level 0-9, independent stored-block gzip with optional header fields, or a series of 2-4 gzip members cut anywhere in the text; entry point: load_raw_reader / load_zipped_reader on a simulated stream or load_file on the simulated disk; schedule: chunking incl. cuts at line ends, inside number tokens, inside the gzip header/trailer; faults: EINTR, short reads, EIO at byte k or call j, open failure, one flipped container bit; or one one-token corruption). Enumerated part: EIO at every byte offset 0..=len of N files; every single flipped bit of the container of M gzip files. distinct = distinct event-log hash; non-trivial = the model has a column, or a fault fired".into()
+        "one run = (abstract LP/MIP model with <=6 columns and <=5 rows: E/L/G rows, RHS, RANGES of either sign, integer markers, every BOUNDS type, objective constant, sense absent/inline/own line; layout variant: 3/5-field lines, comments, blank lines, blanks/tabs, number styles, CRLF, section variants; container: plain, flate2 level 0-9, independent stored-block gzip with optional header fields, or a series of 2-4 gzip members cut anywhere in the text; entry point: load_raw_reader / load_zipped_reader on a simulated stream or load_file / load_file_bytes (+ decode) on the simulated disk; schedule: chunking incl. cuts at line ends, inside number tokens, inside the gzip header/trailer; faults: EINTR, short reads, EIO at byte k or call j, open failure, one flipped container bit; or one one-token corruption). Enumerated part: EIO at every byte offset 0..=len of N files; every single flipped bit of the container of M gzip files. distinct = distinct event-log hash; non-trivial = the model has a column, or a fault fired".into()
     }
     fn assumptions(&self) -> Vec<String> {
         vec![
